@@ -111,3 +111,76 @@ for qual, context, delayed, with_value in itertools.product((Signal, Variable), 
         OUT.SignalAlias: lambda it, args, kw: SObj(OUT.SignalAlias, f_signal=args[0], f_alias=args[1], f_bound=args[2]),
     }}
     con.cases.append(c)
+
+
+# ---- branch `_IntrinsicInlineEntity`: an entity instantiated inside a context (C12) ---------------------------------------------
+# An instance is a concurrent statement: it is registered in the enclosing BLOCK (Entity.__init__), whatever surrounds the call.
+# Inside a concurrent context (or an always expression, which is evaluated as one) that is what the call means; inside a
+# SEQUENTIAL context the surrounding clock edge and conditions would be lost silently (`if self.en: Sub(...)` instantiates
+# Sub unconditionally) -- instantiating there is rejected.
+from cohdl._core._intrinsic import _IntrinsicInlineEntity  # noqa: E402
+
+INLINE_PROPS = ("C12",)
+
+
+def inline_spec(context):
+    def spec(sx, self, fn, args, kwargs):
+        if context is not ContextType.CONCURRENT:
+            sx.reject(AssertionError)
+        return C.Pred(lambda res: isinstance(res, SObj) and res.kind is OUT.Value and res.fields["f_value"] is None and res.fields["f_bound"] == [], "no statement: the instance lives in the block")
+
+    return spec
+
+
+con = contract(PA + ":PrepareAst.convert_intrinsic", INLINE_PROPS)
+for context in (ContextType.CONCURRENT, ContextType.SEQUENTIAL):
+    SELF = Built([], (lambda cx: lambda env: SObj(_Prep, _context=cx))(context), lambda a: "<self>", lambda a: None)
+    FN = Built([], lambda env: _decl_marker, lambda a: "<fn>", lambda a: None)
+    c = Case(f"inline-entity:{context.name}", [SELF, FN, Built([], lambda env: [], lambda a: "[]", lambda a: None), Built([], lambda env: {}, lambda a: "{}", lambda a: None)], inline_spec(context))
+    c.native = False
+    c.props = INLINE_PROPS
+
+    def _inline_setup(it, ctx, args, env):
+        repl = SObj(_Repl, is_special_case=True, evaluate=False, assignment_spec=None)
+        repl.fields["fn"] = _decl_fn
+        ctx.global_overlay[(PA, "_intrinsic_replacements")] = {_decl_marker: repl}
+        it.decl_result = SObj(_IntrinsicInlineEntity, entity="<instance>")
+
+    c.setup = _inline_setup
+    c.models = [(INTR._has_intrinsic_replacement, lambda it, fn: True)]
+    c.interp_flags = {"class_call_models": {OUT.Value: lambda it, args, kw: SObj(OUT.Value, f_value=args[0], f_bound=args[1])}}
+    c.custom_replay = "contracts.c03_decl.replay_instance_in_sequential"
+    con.cases.append(c)
+
+_INSTANCE_IN_SEQ = '''
+from cohdl import Entity, Port, Bit, std
+class Sub(Entity):
+    i = Port.input(Bit)
+    q = Port.output(Bit)
+    def architecture(self):
+        @std.concurrent
+        def logic():
+            self.q <<= self.i
+class Top(Entity):
+    clk = Port.input(Bit)
+    en = Port.input(Bit)
+    a = Port.input(Bit)
+    o = Port.output(Bit)
+    def architecture(self):
+        @std.sequential(std.Clock(self.clk))
+        def proc():
+            if self.en:
+                Sub(i=self.a, q=self.o)      # neither clocked nor guarded once it is an instance
+try:
+    t = std.VhdlCompiler.to_string(Top)
+    print("ACCEPTED", "entity work.Sub" in t)
+except AssertionError as e:
+    print("REJECTED", str(e)[:80])
+'''
+
+
+def replay_instance_in_sequential(payload):
+    from contracts.c06_extra import _run_design
+
+    rc, out = _run_design(_INSTANCE_IN_SEQ)
+    return {"reproduced": rc == 0 and "ACCEPTED True" in out, "detail": out[-300:]}
